@@ -1,6 +1,7 @@
 package engine
 
 import (
+	"os"
 	"fmt"
 	"go/token"
 	"go/types"
@@ -293,6 +294,9 @@ func (fr *frame) loopHead(li *loopInfo, st *State, entryPhis map[*ssa.Phi]T) {
 		})
 	}
 	if !c.scan {
+		if os.Getenv("GOVC_DEBUG") != "" {
+			fmt.Fprintf(os.Stderr, "[loop-head] %s all=%v unknown=%v callees=%d writes=%v\n", li.key, c.loopAll[li.key], c.loopAllUnknown[li.key], len(c.loopCallees[li.key]), c.loopWrites[li.key])
+		}
 		if c.loopAll[li.key] && !c.loopAllUnknown[li.key] {
 			before := make(map[string]T, len(st.heaps))
 			for k, v := range st.heaps {
